@@ -276,18 +276,34 @@ def intercepted(an, to_tree, g, edge_node):
         specific = [t for t, tr in fdom if t not in cdom]
         if not specific:
             return False, base + " (no guard selects the intercepting branch)"
-        allowed = {v.id} | set(dir(builtins)) | set(an.model.classes)
+        Config = an.model.cls("Config")
+        ftt = an.ft(to_tree)
+
+        def atom_ok(e):
+            """accepted guard atoms: truthiness of V; isinstance(V, list-like); all/any(isinstance(item, Config) for item in V)"""
+            if isinstance(e, ast.Name) and e.id == v.id:
+                return True
+            if isinstance(e, ast.Call) and isinstance(e.func, ast.Name) and e.func.id == "isinstance" and len(e.args) == 2 \
+                    and isinstance(e.args[0], ast.Name) and e.args[0].id == v.id:
+                spec = ftt.class_spec(e.args[1], {}) or []
+                return bool(spec) and all(sp in ("list", "tuple") or (sp in an.model.classes and (
+                    an.model.classes[sp].is_subclass_of("list") or sp == "ContainerValueMixin")) for sp in spec)
+            if isinstance(e, ast.Call) and isinstance(e.func, ast.Name) and e.func.id in ("all", "any") and len(e.args) == 1 \
+                    and isinstance(e.args[0], (ast.GeneratorExp, ast.ListComp)):
+                ge = e.args[0]
+                if len(ge.generators) == 1 and isinstance(ge.generators[0].iter, ast.Name) and ge.generators[0].iter.id == v.id \
+                        and not ge.generators[0].ifs and isinstance(ge.generators[0].target, ast.Name):
+                    elt = ge.elt
+                    if isinstance(elt, ast.Call) and isinstance(elt.func, ast.Name) and elt.func.id == "isinstance" and len(elt.args) == 2 \
+                            and isinstance(elt.args[0], ast.Name) and elt.args[0].id == ge.generators[0].target.id:
+                        spec = ftt.class_spec(elt.args[1], {}) or []
+                        return "Config" in spec
+            return False
+
         for t in specific:
-            bound = set()
-            for x in ast.walk(t.ast):
-                if isinstance(x, ast.comprehension):
-                    for y in ast.walk(x.target):
-                        if isinstance(y, ast.Name):
-                            bound.add(y.id)
-            names = {x.id for x in ast.walk(t.ast) if isinstance(x, ast.Name)}
-            extra = names - allowed - bound
-            if extra:
-                return False, base + " (the intercepting guard also depends on %s)" % sorted(extra)
+            if not atom_ok(t.ast):
+                return False, base + (" (the intercepting guard `%s` is not a test of the value being a list of configurations: "
+                                      "lists it does not select still reach the unforwarding edge)" % ast.unparse(t.ast)[:60])
         # the encoder call must come after the interception test (reachable from a False edge)
         ok_order = any(g0.path(t, lambda n: n is c, may_raise=oracle, stop=lambda n: n in loop_heads) for t in specific)
         if not ok_order:
